@@ -215,7 +215,8 @@ def realign_records(chk):
 class BandBench:
     def __init__(self):
         self.eq = equipment()
-        self.net, _, _ = designed(line_or_mesh_json('ABC', [('A', 'B', 80), ('B', 'C', 80)]), self.eq)
+        # link A-B is long enough to be split by the design: its OMS carry three amplifiers (booster, in-line, preamp)
+        self.net, _, _ = designed(line_or_mesh_json('ABC', [('A', 'B', 200), ('B', 'C', 80)]), self.eq)
 
     def run(self, lay, name):
         from gnpy.topology.spectrum_assignment import build_oms_list
@@ -223,7 +224,16 @@ class BandBench:
         # group 1: A->B and C->B, group 2: B->C and B->A (amplifiers in the other order on the way back): the two directions of
         # a link carry different amplifier sets whenever the two groups differ
         nodes = node_map(self.net)
-        groups = {('roadm A', 'roadm B'): lay[0], ('roadm B', 'roadm A'): lay[1][::-1],
+        def three(x, y, z, fallback):
+            # domain: the amplifiers of an OMS share at least one slot (the model's layouts guarantee it per group; a mix
+            # across groups that shares nothing falls back to the group's own pair with its first amplifier in line)
+            def has(amp, n):
+                return any(lo <= n <= hi for lo, hi in amp)
+            if any(all(has(a, n) for a in (x, y, z)) for n in range(-80, 41)):
+                return [x, y, z]
+            return [fallback[0], fallback[0], fallback[1]]
+        groups = {('roadm A', 'roadm B'): three(lay[0][0], lay[1][0], lay[0][1], lay[0]),
+                  ('roadm B', 'roadm A'): three(lay[1][1], lay[0][0], lay[1][0], lay[1][::-1]),
                   ('roadm B', 'roadm C'): lay[1], ('roadm C', 'roadm B'): lay[0][::-1]}
         for (a, b), amps in groups.items():
             chain = []
@@ -235,8 +245,8 @@ class BandBench:
             if n.uid != b:
                 raise Machinery(f'band bench: chain from {a} reaches {n.uid}, not {b}')
             edfas = [x for x in chain if isinstance(x, Edfa)]
-            if len(edfas) != 2:
-                raise Machinery(f'band bench expects booster+preamp per OMS, got {len(edfas)}')
+            if len(edfas) != len(amps):
+                raise Machinery(f'band bench expects {len(amps)} amplifiers on {a} -> {b}, got {len(edfas)}')
             for e, amp in zip(edfas, amps):
                 e.params = copy.copy(e.params)
                 e.params.bands = [{'f_min': freq(lo, 'lo'), 'f_max': freq(hi, 'hi')} for lo, hi in amp]
